@@ -22,9 +22,10 @@ RULES = {
     "R6": "no lru_cache/cache-memoised function returns SeedSequence/Generator state",
     "R7": "nothing derived from a passed generator is stored on self / cls / a module global by a stateless randomised operation",
     "R9": "the seeded generator is installed on the model unconditionally before the chain's first step (C17.R1 run here): a set_rng that runs only when the model has no generator yet leaves a refit / a second chain drawing from the previous call's generator",
+    "R10": "the population of every positional draw (choice / permutation / shuffle of a generator) has an input-determined order: no set of names enumerated in hash order",
     "R8": "a seed of 0 is a seed: no seeding constructor receives None (OS entropy) when the seed value is falsy",
 }
-MIN = {"R1": 1, "R2": 3, "R3": 20, "R4": 3, "R5": 4, "R6": 1, "R7": 10, "R8": 5, "R9": 2}
+MIN = {"R1": 1, "R2": 3, "R3": 20, "R4": 3, "R5": 4, "R6": 1, "R7": 10, "R8": 5, "R9": 2, "R10": 8}
 TRUSTED = ["numpy Generator methods are deterministic functions of the generator state", "import aliases resolved from module-level imports"]
 TECHNIQUE = "resolved-callee who-may-call rule (API allow-list), parameter-threading check over the call graph, def-use of the stored generator"
 LEVEL_TEXT = ("Determinism in (inputs, generator) is a discipline visible in the code: every draw must come from the "
@@ -440,12 +441,102 @@ def run(ctx):
     r8(ctx)
 
 
+def r10(ctx):
+    """The population of a positional draw (`choice`, `permutation`, `shuffle` of a generator) must have an order that is a function of the
+    inputs.  A set handed over through list(..) / tuple(..) / np.array(..) is enumerated in hash order, and for strings that order changes
+    from one interpreter run to the next (hash randomisation): the same screen and the same seeded generator then give different draws.
+    sorted(S) and np.unique(..) are ordered; dict keys keep insertion order."""
+    R = ctx.R
+    n = 0
+    for q, f in sorted(R.funcs.items()):
+        if q in getattr(R, "absorbed", ()):
+            continue
+        draws = [c for c in calls(f.node) if attr_tail(c) in ("choice", "permutation", "shuffle", "permuted") and isinstance(c.func, ast.Attribute)
+                 and not U(c.func.value).startswith(("np.random", "numpy.random", "random")) and (c.args or kwargs(c).get("a") is not None or kwargs(c).get("x") is not None)]
+        if not draws:
+            continue
+        defs = {}
+        for st in walk_own(f.node):
+            if isinstance(st, ast.Assign) and len(st.targets) == 1 and isinstance(st.targets[0], ast.Name):
+                defs.setdefault(st.targets[0].id, []).append(st.value)
+
+        def set_typed(e, depth=0):
+            """(is a set, text of where its elements come from)"""
+            if depth > 4 or e is None:
+                return False, ""
+            if isinstance(e, (ast.Set, ast.SetComp)):
+                return True, U(e)
+            if isinstance(e, ast.Call) and U(e.func) in ("set", "frozenset"):
+                return True, U(e)
+            if isinstance(e, ast.Call) and isinstance(e.func, ast.Attribute) and e.func.attr in ("union", "intersection", "difference", "symmetric_difference", "copy"):
+                return set_typed(e.func.value, depth + 1)
+            if isinstance(e, ast.BinOp) and isinstance(e.op, (ast.BitOr, ast.BitAnd, ast.Sub, ast.BitXor)):
+                a_, b_ = set_typed(e.left, depth + 1), set_typed(e.right, depth + 1)
+                return (a_ if a_[0] else b_)
+            if isinstance(e, ast.Name):
+                for v in defs.get(e.id, []):
+                    r_ = set_typed(v, depth + 1)
+                    if r_[0]:
+                        # where elements are added to it
+                        adds = [U(c_.args[0]) for c_ in calls(f.node) if attr_tail(c_) in ("add", "update") and isinstance(c_.func, ast.Attribute) and U(c_.func.value) == e.id and c_.args]
+                        return True, r_[1] + " " + " ".join(adds)
+                return False, ""
+            # D[k] / D.get(k) with D a defaultdict(set) / a dict whose values are sets
+            base = None
+            if isinstance(e, ast.Subscript) and isinstance(e.value, ast.Name):
+                base = e.value.id
+            if isinstance(e, ast.Call) and isinstance(e.func, ast.Attribute) and e.func.attr in ("get", "pop", "setdefault") and isinstance(e.func.value, ast.Name):
+                base = e.func.value.id
+            if base is not None:
+                for v in defs.get(base, []):
+                    if isinstance(v, ast.Call) and U(v.func).split(".")[-1] == "defaultdict" and v.args and U(v.args[0]) in ("set", "frozenset"):
+                        adds = [U(c_.args[0]) for c_ in calls(f.node) if attr_tail(c_) in ("add", "update") and isinstance(c_.func, ast.Attribute)
+                                and isinstance(c_.func.value, ast.Subscript) and U(c_.func.value.value) == base and c_.args]
+                        # the added names read through the loops that bind them
+                        srcs = " ".join(U(lp.iter) for lp in walk_own(f.node) if isinstance(lp, ast.For) and any(a_ in {x.id for x in ast.walk(lp.target) if isinstance(x, ast.Name)} for a_ in adds))
+                        return True, " ".join(adds) + " " + srcs
+                    if isinstance(v, ast.DictComp) and set_typed(v.value, depth + 1)[0]:
+                        return True, U(v.value)
+            return False, ""
+
+        def population(e, depth=0):
+            """the set whose hash order the positional population has, if any"""
+            if depth > 4 or e is None:
+                return False, ""
+            if isinstance(e, ast.Call) and U(e.func) in ("list", "tuple", "np.array", "np.asarray", "numpy.array", "np.fromiter") and e.args:
+                r_ = set_typed(e.args[0])
+                return r_ if r_[0] else population(e.args[0], depth + 1)
+            if isinstance(e, ast.Name):
+                for v in defs.get(e.id, []):
+                    r_ = population(v, depth + 1)
+                    if r_[0]:
+                        return r_
+                return False, ""
+            if isinstance(e, (ast.ListComp, ast.GeneratorExp)) and len(e.generators) == 1:
+                return set_typed(e.generators[0].iter)
+            return set_typed(e) if isinstance(e, (ast.Set, ast.SetComp)) else (False, "")
+        for i, c in enumerate(draws):
+            pop = c.args[0] if c.args else (kwargs(c).get("a") or kwargs(c).get("x"))
+            is_set, src = population(pop)
+            site = f"{f.site()}::{attr_tail(c)}#{i}"
+            n += 1
+            if not is_set:
+                ctx.ok("R10", site, "the population is not a set enumerated in hash order")
+            elif "name" in src.lower() or "str(" in src:
+                ctx.bad("R10", site, f"`{U(c)[:90]}` draws by position from a set of names enumerated in hash order (`{U(pop)[:60]}`): string hashes change with the "
+                        f"interpreter run (hash randomisation), so the same inputs and the same generator give different draws - sort the population first")
+            else:
+                raise AnalysisError(f"{f.site()}: `{U(c)[:80]}` draws by position from a set (`{U(pop)[:60]}`); whether its enumeration order is a function of the inputs "
+                                    f"depends on the element type, which this rule cannot see")
+    ctx.need(n >= 8, f"only {n} positional draws from a generator found")
+
+
 def r9(ctx):
     from . import C17
     ctx.borrow(C17.r1_order, "R9")
 
 
-RULE_FUNCS = [r1, r2, r3, r4, r5, r6, r7, r8, r9]
+RULE_FUNCS = [r1, r2, r3, r4, r5, r6, r7, r8, r9, r10]
 
 
 def _rep(a, b):
@@ -457,6 +548,8 @@ def _rep(a, b):
 
 
 WITNESSES = [
+    ("single-agent rows drawn from a set of plate names", "batchie.retrospective",
+     _rep("            assignments = rng.choice(\n                eligible_plate_names, size=n_to_assign, replace=True\n            )", "            assignments = rng.choice(\n                list(set(eligible_plate_names.tolist())), size=n_to_assign, replace=True\n            )"), ["R10"]),
     ("generator installed only when the model has none", "batchie.sampling", _rep("            model.set_rng(rng)\n", "            if model.rng is None:\n                model.set_rng(rng)\n"), ["R9"]),
     ("helper reached without its rng argument", "batchie.retrospective", _rep("                chosen_selection_index = rng.choice(selection_indices, size=1)\n                chosen_selection_indices.append(chosen_selection_index)\n                covered_treatments.update(", "                chosen_selection_index = np.random.default_rng(None).choice(selection_indices, size=1)\n                chosen_selection_indices.append(chosen_selection_index)\n                covered_treatments.update("), ["R2"]),
     ("seed 0 falls back to OS entropy", "batchie.sampling", _rep("numpy.random.SeedSequence(seed).spawn(n_chains)", "numpy.random.SeedSequence(seed or None).spawn(n_chains)"), ["R8"]),
